@@ -8,11 +8,18 @@ import json, os, random, sys, tempfile, shutil
 
 HEADER = """from bisturi.packet import Packet
 from bisturi.field import Int, Data, Bits, Ref, Em
+from bisturi.descriptor import Auto, AutoLength
 
 class Inner(Packet):
     __bisturi__ = {'generate_for_pack': False, 'generate_for_unpack': False}
     p = Int(1)
     q = Int(2)
+
+
+class Both(AutoLength):
+    # a descriptor with BOTH sync hooks (the built-in ones only have sync_before_pack)
+    def sync_after_unpack(self, instance):
+        setattr(instance, self.iam_enabled_attr_name, True)
 
 """
 
